@@ -578,6 +578,17 @@ func (idx *Index) Put(key []byte, location types.Block) error {
 
 // Update updates a key together with a file offset into the index.
 func (idx *Index) Update(key []byte, location types.Block) error {
+	return idx.update(key, nil, location)
+}
+
+// UpdateIfBlock updates the location of a key only if the index currently
+// stores oldLocation for it. It is used to move a record without overwriting
+// a newer value of the key.
+func (idx *Index) UpdateIfBlock(key []byte, oldLocation, location types.Block) error {
+	return idx.update(key, &oldLocation, location)
+}
+
+func (idx *Index) update(key []byte, expected *types.Block, location types.Block) error {
 	// Get record list and bucket index
 	bucket, err := idx.getBucketIndex(key)
 	if err != nil {
@@ -606,6 +617,9 @@ func (idx *Index) Update(key []byte, location types.Block) error {
 	r := records.GetRecord(indexKey)
 	if r == nil {
 		return fmt.Errorf("key to update not found in index")
+	}
+	if expected != nil && r.Block != *expected {
+		return fmt.Errorf("index has a different location for key")
 	}
 	// Update key in position.
 	newData = records.PutKeys([]KeyPositionPair{{r.Key, location}}, r.Pos, r.NextPos())
